@@ -151,6 +151,7 @@ PY_TIE = {
  "C14": "the two distribution conversions of montecarlo_fn",
  "C16": "the threshold chain, reliability criteria i-iii and clarity criteria iii-vi",
  "C17": "the normalisation chain of the one-sided PSD",
+ "C12": "the statement of the azimuthal reader's loop that decides where a new azimuth block starts (label change, or curve numbering restarting at one; = the merge criterion of the model's groupNumbered)",
 }
 for pid, what in PY_TIE.items():
     c = CLAIMED[pid]
